@@ -190,7 +190,8 @@ func (cs *clientState) releaseCapture() {
 
 // Tells a blocking command (if any) to end with a timeout or error.
 // For a timeout, pass reason as an empty string and isError false.
-func (cs *clientState) unblock(reason string, isError bool) {
+// unblock ends the client's blocking command, if it is in one; it reports whether it was
+func (cs *clientState) unblock(reason string, isError bool) (wasBlocked bool) {
 	us := time.Microsecond
 
 	for {
@@ -207,6 +208,7 @@ func (cs *clientState) unblock(reason string, isError bool) {
 		atomic.SwapInt32(&cs.blocked, locked)
 
 		if locked == CS_UNCAPTURED || locked == CS_CAPTURED {
+			wasBlocked = (locked == CS_CAPTURED)
 			return
 		}
 
